@@ -114,6 +114,7 @@ ITEMS = [
          "to_index": {"params": {"lit": INT}},
          "__call__": {"params": {"index": TList(TOpt(INT))}, "vararg": "index"},
          "forbid": {"params": {"i": INT, "j": INT}},
+         "__getitem__": {"params": {"choices": INT}, "lean": "getitem"},
      }},
     {"file": VARS, "class": "BipartiteEdgesVariables", "property": "C11",
      "methods": {
@@ -201,13 +202,19 @@ ITEMS = [
      "methods": {
          "_add_variable_group": [
              {"lean": "add_variable_group_unary", "params": {"vg": TObj("UnaryMappingVariables")}},
+             {"lean": "add_variable_group_binary", "params": {"vg": TObj("BinaryMappingVariables")}},
          ],
+         "new_binary_mapping": {"params": {"n": INT, "m": INT, "label": ERASED}},
          "new_mapping": {"params": {"n": INT, "m": INT, "label": ERASED}},
-         "force_complete_mapping": [{"lean": "force_complete_mapping_unary", "params": {"f": TObj("UnaryMappingVariables")}}],
+         "force_complete_mapping": [{"lean": "force_complete_mapping_unary", "params": {"f": TObj("UnaryMappingVariables")}},
+                                    {"lean": "force_complete_mapping_binary", "params": {"f": TObj("BinaryMappingVariables")}}],
          "force_functional_mapping": [{"lean": "force_functional_mapping_unary", "params": {"f": TObj("UnaryMappingVariables")}}],
          "force_surjective_mapping": [{"lean": "force_surjective_mapping_unary", "params": {"f": TObj("UnaryMappingVariables")}}],
-         "force_injective_mapping": [{"lean": "force_injective_mapping_unary", "params": {"f": TObj("UnaryMappingVariables")}}],
+         "force_injective_mapping": [{"lean": "force_injective_mapping_unary", "params": {"f": TObj("UnaryMappingVariables")}},
+                                     {"lean": "force_injective_mapping_binary", "params": {"f": TObj("BinaryMappingVariables")}}],
      }},
     {"file": "cnfgen/families/pigeonhole.py", "function": "PigeonholePrinciple", "property": "C01",
      "params": {"pigeons": INT, "holes": INT, "functional": BOOL, "onto": BOOL, "formula_class": TEffectClass("Formula")}},
+    {"file": "cnfgen/families/pigeonhole.py", "function": "BinaryPigeonholePrinciple", "property": "C01",
+     "params": {"pigeons": INT, "holes": INT, "formula_class": TEffectClass("Formula")}},
 ]
